@@ -1,11 +1,16 @@
 #!/bin/sh
 # Offline setup: nothing is fetched. Pre-warms the Go build cache for the harness
-# (plain and -race) against /repo's working tree.
-set -e
-cd "$(dirname "$0")/../harness"
+# (plain and -race) against /repo's working tree. Failures here are not fatal:
+# every check rebuilds its own worker and reports a build failure itself.
+cd "$(dirname "$0")/../harness" || exit 1
 export GOFLAGS=-mod=mod GOPROXY=off GOSUMDB=off GOTOOLCHAIN=local GONOSUMDB='*'
 sed "s#replace github.com/syndtr/goleveldb => .*#replace github.com/syndtr/goleveldb => /repo#" go.mod > go.verif.mod
 cp go.sum go.verif.sum
-go build -tags verif -modfile=go.verif.mod ./... 
-go build -race -tags verif -modfile=go.verif.mod ./wk ./model ./vstor ./dbx 2>/dev/null || true
+mkdir -p ../.build
+for d in cmd/*/; do
+  w=$(basename "$d")
+  go build -tags verif -modfile=go.verif.mod -o ../.build/"$w" ./cmd/"$w" || echo "setup: $w does not build (its check will say so)"
+done
+go build -race -tags verif -modfile=go.verif.mod ./wk ./model ./vstor ./dbx ./lsm 2>/dev/null || true
 echo "setup ok"
+exit 0
